@@ -239,16 +239,29 @@ class Config:
                            host-only (deliberate and tested: tests/test_cookiejar.py
                            test_ignore_domain_ending_with_dot).
     persist_session_cookies  save() writes every cookie, also non-persistent ones.
+    reserved_names_refused   a Set-Cookie string whose cookie-name is (case-insensitively) the name
+                           of a cookie attribute (RESERVED_NAMES) is ignored as a whole - the
+                           http.cookies.Morsel heritage of aiohttp's parser, deliberate and tested
+                           (tests/test_cookie_helpers.py test_parse_set_cookie_headers_illegal_cookie_name,
+                           ..._attributes_before_cookie, ..._empty_and_invalid).  Off by default:
+                           RFC 6265 stores such a cookie like any other.
     """
 
     def __init__(self, *, unsafe=False, public_suffixes=(), shared_without_url=True,
-                 secure_origins=(), domain_trailing_dot_absent=True, persist_session_cookies=True):
+                 secure_origins=(), domain_trailing_dot_absent=True, persist_session_cookies=True,
+                 reserved_names_refused=False):
         self.unsafe = unsafe
         self.public_suffixes = frozenset(public_suffixes)
         self.shared_without_url = shared_without_url
         self.secure_origins = frozenset(secure_origins)
         self.domain_trailing_dot_absent = domain_trailing_dot_absent
         self.persist_session_cookies = persist_session_cookies
+        self.reserved_names_refused = reserved_names_refused
+
+
+# cookie-names aiohttp's Set-Cookie parser refuses (Config.reserved_names_refused)
+RESERVED_NAMES = frozenset(("path", "domain", "max-age", "expires", "secure", "httponly", "samesite",
+                            "partitioned", "version", "comment"))
 
 
 class Cookie:
@@ -300,6 +313,10 @@ class Store:
             self.fate[tag] = "rejected:unparsable"
             return None
         name, value, attrs = p
+        if self.cfg.reserved_names_refused and name.lower() in RESERVED_NAMES:
+            self.fate[tag] = "rejected:reserved_name"
+            self.evict(now)
+            return None
         return self.set_cookie(name, value, attrs, host, uri_path, now, tag)
 
     def set_cookie(self, name, value, attrs, host, uri_path, now, tag=None):
@@ -598,6 +615,17 @@ def oracle_selftest():
     s0 = Store()
     s0.set_from_header("x=1; Domain=com", "example.com", "/", T)
     eq(sent(s0, "http://other.com/", T), [("x", "1")], "no public-suffix list: sent to every .com host")
+    # a Set-Cookie string that is ignored as a whole changes nothing, whatever it looks like
+    si = Store(Config(reserved_names_refused=True))
+    si.set_from_header("sid=1; Path=/p", "sub.example.com", "/", T, "t1")
+    for junk in ("Secure", "secure; Path=/", "=x; Domain=example.com", "novalue; Max-Age=0", "",
+                 "domain=example.com; Path=/", "Path=/", "max-age=0", "Expires=Thu, 01 Jan 1970 00:00:00 GMT"):
+        eq(si.set_from_header(junk, "sub.example.com", "/", T, "tj"), None, f"ignored Set-Cookie {junk!r}")
+    eq(sent(si, "http://sub.example.com/p", T), [("sid", "1")], "ignored fields leave the stored cookie alone")
+    eq(sent(si, "http://example.com/p", T) + sent(si, "http://sub.example.com/", T), [], "... and its scope")
+    eq(si.fate["tj"], "rejected:reserved_name", "fate of a reserved-name cookie")
+    s0.set_from_header("domain=zz; Path=/", "example.com", "/", T)
+    eq(("domain", "zz") in sent(s0, "http://example.com/", T), True, "RFC 6265 itself stores a cookie named 'domain'")
 
 
 if __name__ == "__main__":
